@@ -1,7 +1,7 @@
 import XpmVerif.Model.IdentImpl
 /-! C14, part 1: the edge relation walked by the `Sealer`, DFS completeness of `visit`,
     and `seal_reaches_all`. -/
-namespace XpmVerif.Ident
+namespace XpmVerif.Ident.Sealing
 open List
 
 /-! ### references of a value (any depth), edges, reachability -/
@@ -44,7 +44,7 @@ theorem Reach.head {g : Graph} {a b c : Nat} (e : Edge g a b) (h : Reach g b c) 
   Reach.trans (.step .refl e) h
 
 /-- well-formed: every reference points to an existing node. -/
-def Graph.WF (g : Graph) : Prop := ∀ n m, Edge g n m → m < g.size
+def WF (g : Graph) : Prop := ∀ n m, Edge g n m → m < g.size
 
 /-- the successors of a sealed node are sealed. -/
 def SealedClosed (g : Graph) : Prop := ∀ n m, (g.node n).sealed = true → Edge g n m → (g.node m).sealed = true
@@ -94,7 +94,7 @@ def wfB (g : Graph) : Bool := (List.range g.size).all fun n => (succs g n).all (
 def closedB (g : Graph) : Bool :=
   (List.range g.size).all fun n => !(g.node n).sealed || (succs g n).all (fun m => (g.node m).sealed)
 
-theorem WF_of_wfB {g : Graph} (h : wfB g = true) : g.WF := by
+theorem WF_of_wfB {g : Graph} (h : wfB g = true) : WF g := by
   intro n m e
   simp only [wfB, all_eq_true, mem_range, decide_eq_true_eq] at h
   exact h n e.lt m (edge_iff_succs.1 e)
@@ -382,12 +382,12 @@ theorem sealVisit_closed {g : Graph} (hcl : SealedClosed g) (n : Nat) {x y : Nat
 theorem mem_sealVisit_self (g : Graph) (n : Nat) : n ∈ sealVisit g n :=
   (visit_complete g (fun m => (g.node m).sealed) (g.size + 1) n [] (by omega)).2
 
-theorem WF_sealFrom {g : Graph} (hwf : g.WF) (n : Nat) : (sealFrom g n).WF := by
+theorem WF_sealFrom {g : Graph} (hwf : WF g) (n : Nat) : WF (sealFrom g n) := by
   intro a b e
   rw [size_sealFrom]
   exact hwf a b (edge_sealFrom.1 e)
 
-theorem sealedClosed_sealFrom {g : Graph} (hwf : g.WF) (hcl : SealedClosed g) (n : Nat) : SealedClosed (sealFrom g n) := by
+theorem sealedClosed_sealFrom {g : Graph} (hwf : WF g) (hcl : SealedClosed g) (n : Nat) : SealedClosed (sealFrom g n) := by
   intro x y hx e
   have e' := edge_sealFrom.1 e
   rw [sealed_sealFrom] at *
@@ -396,14 +396,14 @@ theorem sealedClosed_sealFrom {g : Graph} (hwf : g.WF) (hcl : SealedClosed g) (n
   · exact .inl h
   · exact .inr ⟨h, hwf x y e'⟩
 
-theorem reach_sealed_or_visited {g : Graph} (hwf : g.WF) (hcl : SealedClosed g) {n : Nat} (hn : n < g.size) {m : Nat}
+theorem reach_sealed_or_visited {g : Graph} (hwf : WF g) (hcl : SealedClosed g) {n : Nat} (hn : n < g.size) {m : Nat}
     (h : Reach g n m) : ((g.node m).sealed = true ∨ m ∈ sealVisit g n) ∧ m < g.size := by
   induction h with
   | refl => exact ⟨.inr (mem_sealVisit_self g n), hn⟩
   | step _ e ih => exact ⟨sealVisit_closed hcl n ih.1 e, hwf _ _ e⟩
 
 /-- **seal reaches everything**: after `sealFrom g n` every node reachable from `n` is sealed. -/
-theorem sealFrom_reaches {g : Graph} (hwf : g.WF) (hcl : SealedClosed g) {n : Nat} (hn : n < g.size) {m : Nat}
+theorem sealFrom_reaches {g : Graph} (hwf : WF g) (hcl : SealedClosed g) {n : Nat} (hn : n < g.size) {m : Nat}
     (h : Reach g n m) : ((sealFrom g n).node m).sealed = true := by
   have := reach_sealed_or_visited hwf hcl hn h
   rw [sealed_sealFrom]
@@ -415,4 +415,4 @@ theorem sealFrom_keeps {g : Graph} (n : Nat) {m : Nat} (h : (g.node m).sealed = 
     ((sealFrom g n).node m).sealed = true := by
   rw [node_sealFrom_of_sealed g n m h]; exact h
 
-end XpmVerif.Ident
+end XpmVerif.Ident.Sealing
